@@ -53,6 +53,23 @@ fn run_case(c: &Case) -> CaseOut {
             if total != c.input.len() {
                 oracle_failures.push("lex: token lengths do not sum to the input length".to_string());
             }
+            let is_blank = |ch: char| ch <= ' ' || ch == '\u{3000}';
+            for (i, t) in toks.iter().enumerate() {
+                let last = i + 1 == toks.len();
+                let is_eof = matches!(t.get_token_type(), RawTokenType::Eof);
+                if is_eof != last {
+                    oracle_failures.push("lex: end-of-file token is not exactly the last token".to_string());
+                }
+                if !t.get_leading_whitespace().chars().all(is_blank) {
+                    oracle_failures.push("lex: leading whitespace contains a non-blank character".to_string());
+                }
+                if !is_eof && t.get_content().chars().next().map_or(true, is_blank) {
+                    oracle_failures.push("lex: token content is empty or starts with a blank".to_string());
+                }
+                if is_eof && !t.get_content().is_empty() {
+                    oracle_failures.push("lex: end-of-file token has content".to_string());
+                }
+            }
             bump(&mut stats, "tokens", toks.len());
             CaseOut { in_line: format!("lex\t{}", proto::hex(c.input.as_bytes())), exp_line: parts.join(" "), oracle_failures, stats }
         }
@@ -71,14 +88,34 @@ fn run_case(c: &Case) -> CaseOut {
             bump(&mut stats, "content_changed_by_rules", snap.raw.iter().zip(snap.contents_pre.iter()).filter(|(a, b)| &a.1 != *b).count());
             bump(&mut stats, "content_changed_by_wrapper", snap.contents_pre.iter().zip(snap.contents_post.iter()).filter(|(a, b)| a != b).count());
             let raw_contents: Vec<Vec<u8>> = snap.raw.iter().map(|r| r.1.clone()).collect();
+            // non-ASCII first characters of line comments that `char::is_alphanumeric` accepts
+            let mut alnum: Vec<String> = vec![];
+            for (_, content, kind) in &snap.raw {
+                if kind.starts_with("Comment(") {
+                    if let Ok(s) = std::str::from_utf8(content) {
+                        if let Some(rest) = s.strip_prefix("//") {
+                            let rest = rest.strip_prefix('/').unwrap_or(rest);
+                            if let Some(ch) = rest.chars().next() {
+                                if !ch.is_ascii() && ch.is_alphanumeric() {
+                                    let h = proto::hex(ch.to_string().as_bytes());
+                                    if !alnum.contains(&h) {
+                                        alnum.push(h);
+                                    }
+                                }
+                            }
+                        }
+                    }
+                }
+            }
             let in_line = format!(
-                "fmt\t{}\t{}\t{}\t{}\t{}\t{}",
+                "fmt\t{}\t{}\t{}\t{}\t{}\t{}\t{}",
                 c.cfg.to_proto(),
                 proto::hex(c.input.as_bytes()),
                 proto::list(&snap.kinds),
                 proto::lines(&snap.lines),
                 proto::fmts(&snap.fmt_post),
                 proto::changed(&snap.contents_pre, &snap.contents_post),
+                proto::list(&alnum),
             );
             let exp_line = format!(
                 "marks={}\tlv={}\tpre={}\tprec={}\tkr=1\twc=1\tout={}",
@@ -142,6 +179,12 @@ fn gen_inputs(family: &str, rng: &mut Rng, n: usize, seeds: &[String]) -> Vec<St
                 let m = *rng.pick(&[4, 12, 40, 120]);
                 v.push(byte_soup(rng, m));
             }
+        }
+        "lexfam" => {
+            v = lex_family(rng, n, false);
+        }
+        "lexfam_all" => {
+            v = lex_family(rng, n, true);
         }
         "mutate" => {
             for _ in 0..n {
